@@ -28,7 +28,7 @@ func (c *Ctx) skelD(v ssa.Value, e *env, depth int) []Seg {
 	if depth > 20 {
 		return []Seg{{Hole: "…"}}
 	}
-	rv := c.resolve(v, e)
+	rv, e := c.resolveE(v, e)
 	if s, ok := constStringVal(rv); ok {
 		return []Seg{{Lit: s}}
 	}
@@ -67,8 +67,8 @@ func (c *Ctx) skelD(v ssa.Value, e *env, depth int) []Seg {
 			}
 		}
 	}
-	if inner, desc, ok := c.rewriteOf(rv, e); ok {
-		return []Seg{{Hole: desc + "(" + c.key(inner, e) + ")", Val: rv}}
+	if inner, ie, desc, ok := c.rewriteOfE(rv, e); ok {
+		return []Seg{{Hole: desc + "(" + c.key(inner, ie) + ")", Val: rv}}
 	}
 	return []Seg{{Hole: c.key(rv, e), Val: rv}}
 }
@@ -79,8 +79,13 @@ func (c *Ctx) skelD(v ssa.Value, e *env, depth int) []Seg {
 // pattern, sequential and simultaneous replacement coincide and the rewrite is described canonically as
 // rewrite[a→b,c→d] — so both spellings compare equal.
 func (c *Ctx) rewriteOf(v ssa.Value, e *env) (inner ssa.Value, desc string, ok bool) {
+	inner, _, desc, ok = c.rewriteOfE(v, e)
+	return
+}
+
+func (c *Ctx) rewriteOfE(v ssa.Value, e *env) (inner ssa.Value, ie *env, desc string, ok bool) {
 	var pairs [][2]string
-	cur := c.resolve(v, e)
+	cur, ce := c.resolveE(v, e)
 	for {
 		call, isCall := cur.(*ssa.Call)
 		if !isCall {
@@ -88,39 +93,39 @@ func (c *Ctx) rewriteOf(v ssa.Value, e *env) (inner ssa.Value, desc string, ok b
 		}
 		name := calleeFullName(call)
 		if name == "strings.ReplaceAll" && len(call.Call.Args) == 3 {
-			a, okA := constStringVal(c.resolve(call.Call.Args[1], e))
-			b, okB := constStringVal(c.resolve(call.Call.Args[2], e))
+			a, okA := constStringVal(c.resolve(call.Call.Args[1], ce))
+			b, okB := constStringVal(c.resolve(call.Call.Args[2], ce))
 			if !okA || !okB {
-				return nil, "", false
+				return nil, nil, "", false
 			}
 			pairs = append([][2]string{{a, b}}, pairs...)
-			cur = c.resolve(call.Call.Args[0], e)
+			cur, ce = c.resolveE(call.Call.Args[0], ce)
 			continue
 		}
 		if name == "(*strings.Replacer).Replace" && len(call.Call.Args) == 2 {
-			rp := c.replacerPairs(call.Call.Args[0])
+			rp := c.replacerPairs(c.resolve(call.Call.Args[0], ce))
 			if rp == nil {
-				return nil, "", false
+				return nil, nil, "", false
 			}
 			pairs = append(append([][2]string(nil), rp...), pairs...)
-			cur = c.resolve(call.Call.Args[1], e)
+			cur, ce = c.resolveE(call.Call.Args[1], ce)
 			continue
 		}
 		break
 	}
 	if len(pairs) == 0 {
-		return nil, "", false
+		return nil, nil, "", false
 	}
 	from := map[string]bool{}
 	for _, p := range pairs {
 		if len(p[0]) != 1 || len(p[1]) != 1 || from[p[0]] {
-			return nil, "", false
+			return nil, nil, "", false
 		}
 		from[p[0]] = true
 	}
 	for _, p := range pairs {
 		if from[p[1]] {
-			return nil, "", false
+			return nil, nil, "", false
 		}
 	}
 	var parts []string
@@ -128,7 +133,7 @@ func (c *Ctx) rewriteOf(v ssa.Value, e *env) (inner ssa.Value, desc string, ok b
 		parts = append(parts, p[0]+"→"+p[1])
 	}
 	sortStrings(parts)
-	return cur, "rewrite[" + strings.Join(parts, ",") + "]", true
+	return cur, ce, "rewrite[" + strings.Join(parts, ",") + "]", true
 }
 
 // replacerPairs: v is a load of a package-level *strings.Replacer initialised once in init with
